@@ -47,10 +47,12 @@ def check_matrix(np, sparse, ce, pp, layout, lg):
     bad = []
     arr = np.asarray(lg, dtype=float)
     T, C = arr.shape
-    shifts = [0.0, 0.37]
+    # per-frame constants: none; a small ramp; one frame lifted far above the others (any constant must be immaterial,
+    # also one that makes naive exponentiation of the other frames underflow)
+    shifts = [lambda t: 0.0, lambda t: 0.37 * (t + 1), lambda t: 1000.5 if t == T // 2 else 0.0]
     results = []
     for sh in shifts:
-        a = arr + np.asarray([sh * (t + 1) for t in range(T)])[:, None]
+        a = arr + np.asarray([sh(t) for t in range(T)])[:, None]
         line = TextLine(id='l', logits=sparse.csc_matrix(a), characters=['a', 'b', 'c', '~'], transcription='')
         lp = line.get_full_logprobs()
         if np.any(lp > 1e-12) or abs(np.exp(lp).sum(axis=1) - 1).max() > 1e-9:
@@ -84,16 +86,17 @@ def check_matrix(np, sparse, ce, pp, layout, lg):
         if flags[-1]:
             bad.append(('threshold-monotone', 'a probability exceeds threshold 1.0'))
         results.append(res)
-    a, b = results
-    for key in a:
-        if key == 'flags':
-            same = a[key] == b[key]
-        elif isinstance(a[key], list):
-            same = len(a[key]) == len(b.get(key, [])) and all(abs(x - y) < 1e-7 for x, y in zip(a[key], b[key]))
-        else:
-            same = abs(a[key] - b[key]) < 1e-7
-        if not same:
-            bad.append(('shift-invariance', '%s changes when a constant is added to every frame: %r vs %r' % (key, a[key], b.get(key))))
+    a = results[0]
+    for b in results[1:]:
+        for key in a:
+            if key == 'flags':
+                same = a[key] == b.get(key)
+            elif isinstance(a[key], list):
+                same = len(a[key]) == len(b.get(key, [])) and all(abs(x - y) < 1e-7 for x, y in zip(a[key], b[key]))
+            else:
+                same = key in b and abs(a[key] - b[key]) < 1e-7
+            if not same:
+                bad.append(('shift-invariance', '%s changes when a constant is added to every frame: %r vs %r' % (key, a[key], b.get(key))))
     return bad
 
 
